@@ -1,4 +1,4 @@
-(* M-undo, part 6 (extension): scroll_area_left / scroll_area_right (src/editor/area_operations.rs).
+(* M-undo, part 6 (extension): scroll_area_left / scroll_area_right and scroll_area_up / scroll_area_down (src/editor/area_operations.rs).
 
    `for y in area.y_range() { let line = &mut layer.lines[y as usize];            -- index panic (site 44) when the row is not stored
         if line.chars.len() < area.right() { line.chars.resize(area.right(), invisible) }
@@ -34,4 +34,61 @@ Definition api_scroll_area_lr (left : bool) : E -> res E :=
     match get_cur_layer (cur e) with
     | None => Err 3
     | Some (_, L) => if rect_is_empty (get_area (sel (cur e)) L) then Ok e else area_body (mut_scroll_lr left) e
+    end).
+
+(* ================================================================================================================
+   scroll_area_up / scroll_area_down (after the fix commit for C08-scroll-area-raw-lines)
+
+   `if area.is_empty() { return Ok(()) }
+    if area.get_width() >= layer.get_width() { push_undo_action(UndoScrollWholeLayerUp / Down) }     -- the whole-layer records of DocModel.v
+    else { old = from_layer; <row surgery>; new = from_layer; push_plain_undo(UndoLayerChange) }`
+   row surgery (up; down is the mirror image, `y_range().rev()`, `y + 1`, first row):
+   `for y in area.y_range() { let line = &mut layer.lines[y];                       -- index panic (site 44) when a row of the area is not stored
+        if line.chars.len() < right { line.chars.resize(right, invisible) }
+        let chars = line.chars.drain(left..right).collect();
+        if y == area.top() { saved_line = chars; continue; }
+        layer.lines[y - 1].chars.splice(left..left, chars); }
+    layer.lines[area.bottom() - 1].chars.splice(left..left, saved_line);`
+   Closed form of the loop: every row of the area is drained (drain_row), the drained pieces are rotated by one row, and each piece is
+   spliced back at `left` (splice_row) — a drained row is at least `left` long, so Vec::splice cannot panic.  Tied to the code by stage C. *)
+Definition drain_row (l r : nat) (row : line) : list cell * line :=
+  let row1 := resize_to row r invisible in
+  (firstn (r - l) (skipn l row1), firstn l row1 ++ skipn r row1).
+Definition splice_row (l : nat) (cs : list cell) (row : line) : line := firstn l row ++ cs ++ skipn l row.
+
+Fixpoint zip_with {A B C} (f : A -> B -> C) (la : list A) (lb : list B) : list C :=
+  match la, lb with
+  | a :: ta, b :: tb => f a b :: zip_with f ta tb
+  | _, _ => []
+  end.
+
+Definition scroll_ud_rows (up : bool) (l r : nat) (rows : list line) : list line :=
+  let dr := map (drain_row l r) rows in
+  let chars := map fst dr in
+  (* up: row k receives the cells of row k + 1, the last row those of the first; down: the other way round *)
+  zip_with (splice_row l) (if up then rot_left chars else rot_right chars) (map snd dr).
+
+Definition mut_scroll_ud (up : bool) (L : layer) (a : rect) : res layer :=
+  let '(ax, ay, aw, ah) := a in
+  if rect_is_empty a then Ok L
+  else if (ax <? 0) || (ay <? 0) then Panic 44
+  else
+    let top := Z.to_nat ay in
+    let n := Z.to_nat ah in
+    if (length (l_lines L) <? top + n)%nat then Panic 44
+    else Ok (with_lines L (firstn top (l_lines L)
+                           ++ scroll_ud_rows up (Z.to_nat ax) (Z.to_nat (ax + aw)) (firstn n (skipn top (l_lines L)))
+                           ++ skipn (top + n) (l_lines L))).
+
+(* the public operations on the full document: one guard around either the whole-layer record or the snapshot frame *)
+Definition x_scroll_area_ud (up : bool) : XE -> res XE :=
+  xguarded (fun e =>
+    let s := cur e in
+    match get_cur_layer (xb s) with
+    | None => Err 3
+    | Some (i, L) =>
+      let '(_, _, aw, ah) := get_area (sel (xb s)) L in
+      if rect_is_empty (0, 0, aw, ah) then Ok e
+      else if l_w L <=? aw then xpush (if up then XScrollUp i else XScrollDown i) e
+      else lift_edit (area_body (mut_scroll_ud up)) e
     end).
